@@ -240,10 +240,15 @@ func c02Middleware(p *Program, r *Report) {
 				shortcutE = append(shortcutE, ce.holds)
 			}
 		}
-		cutAll := append(append([]edge{}, cut...), shortcutE...)
+		var bigE []edge
+		for _, b := range bigs {
+			bigE = append(bigE, b.holds)
+		}
+		otherE := append(append([]edge{}, bigE...), shortcutE...)
 		for _, nx := range nexts {
-			r.Check(!reachable(f, nil, cutAll)[nx.Block()], "R-C02-2", keys[nx]+":verdict", p.Pos(nx.Pos()), "Next() only after a verdict, the deferred branch or the frozen shortcut",
-				"ctx.Next() is reachable without signature verification, without the deferred-authentication branch and without the frozen shortcut: an unverified request proceeds")
+			ok, why := mustSucceedBefore(f, callsTo(f, mw.check), otherE, []*ssa.BasicBlock{nx.Block()})
+			r.Check(ok, "R-C02-2", keys[nx]+":verdict", p.Pos(nx.Pos()), "Next() only after a verdict, the deferred branch or the frozen shortcut",
+				"ctx.Next() is reachable without signature verification, without the deferred-authentication branch and without the frozen shortcut ("+why+"): an unverified request proceeds")
 		}
 		// the deferred branch installs the auth reader before Next
 		wr := wrapCallsWith(f, mw.ctor)
@@ -272,16 +277,13 @@ func c02Middleware(p *Program, r *Report) {
 				r.Viol("R-C02-2", name+"/"+req, p.Pos(f.Pos()), "required validation "+req+" is no longer called")
 				continue
 			}
+			var nb []*ssa.BasicBlock
+			for _, nx := range nexts {
+				nb = append(nb, nx.Block())
+			}
 			for _, c := range cs {
-				se := successEdges(c)
-				bad := len(se) == 0
-				cc := append(append([]edge{}, se...), shortcutE...)
-				for _, nx := range nexts {
-					if reachable(f, nil, cc)[nx.Block()] {
-						bad = true
-					}
-				}
-				r.Check(!bad, "R-C02-2", name+"/"+req+":fails-closed", p.Pos(c.Pos()), "Next() unreachable unless "+req+" succeeded", "ctx.Next() is reachable although "+req+" failed or its error is not tested")
+				ok, why := mustSucceedBefore(f, cs, shortcutE, nb)
+				r.Check(ok, "R-C02-2", name+"/"+req+":fails-closed", p.Pos(c.Pos()), "Next() unreachable unless "+req+" succeeded", "ctx.Next() is reachable although "+req+" failed or its error is not tested ("+why+")")
 			}
 		}
 	}
@@ -289,11 +291,12 @@ func c02Middleware(p *Program, r *Report) {
 	// their refusing edges reach no Next
 	nexts := callsTo(hf, fiberCtx+".Next")
 	n := 0
+	var foundWhat []string
 	for _, ce := range condEdgesOf(hf) {
 		var refuse *edge
 		what := ""
 		switch {
-		case ce.isEqNeq && ce.atoms["field:Region"] && ce.atoms["param:region"]:
+		case ce.isEqNeq && ce.atoms["field:Region"] && !ce.atoms[`const:""`]:
 			refuse, what = &ce.fails, "region-scope"
 		case ce.isEqNeq && ce.atoms["field:Date"] && ce.atoms["arg:X-Amz-Date"]:
 			refuse, what = &ce.fails, "credential-date"
@@ -308,6 +311,7 @@ func c02Middleware(p *Program, r *Report) {
 			continue
 		}
 		n++
+		foundWhat = append(foundWhat, what)
 		reach := reachableFromEdge(hf, *refuse, nil)
 		bad := false
 		for _, nx := range nexts {
@@ -318,7 +322,7 @@ func c02Middleware(p *Program, r *Report) {
 		r.Check(!bad, "R-C02-2", fnName(hf)+"/refuses:"+what, p.Pos(ce.pos()), "refusing edge reaches no Next()", "the "+what+" mismatch edge can still reach ctx.Next()")
 	}
 	if n < 5 {
-		r.Viol("R-C02-2", fnName(hf)+"/refusals", p.Pos(hf.Pos()), "expected the region, credential-date, payload-sha256, authorization-present and date-present tests in VerifyV4Signature, found "+itoa(n))
+		r.Viol("R-C02-2", fnName(hf)+"/refusals", p.Pos(hf.Pos()), "expected the region, credential-date, payload-sha256, authorization-present and date-present tests in VerifyV4Signature, found "+itoa(n)+": "+strings.Join(foundWhat, ", "))
 	}
 	// chunk reader construction error (set inside the wrapBodyReader closure) is tested by the middleware
 	c02ClosureErr(p, r, hf, utilsPkg+".NewChunkReader")
@@ -388,14 +392,16 @@ func c02ClosureErr(p *Program, r *Report, f *ssa.Function, ctor string) {
 		for _, c := range callsTo(cl, ctor) {
 			found = true
 			ok := false
-			for _, ev := range errValues(c) {
-				if cl == f {
-					for _, a := range aliasesOf(ev) {
-						if refuses(a) {
-							ok = true
-						}
-					}
+			if cl == f {
+				var nb []*ssa.BasicBlock
+				for _, nx := range nexts {
+					nb = append(nb, nx.Block())
 				}
+				if good, _ := noTargetAfterFailure(f, c, nb); good {
+					ok = true
+				}
+			}
+			for _, ev := range errValues(c) {
 				if ev.Referrers() == nil {
 					continue
 				}
